@@ -68,10 +68,21 @@ Theorem C06_atomic_sequential : forall evs, Sequential evs ->
 Proof. exact atomic_sequential. Qed.
 Print Assumptions C06_atomic_sequential.
 
+(* Write faults.  [EFault k]: the write of the temp file stores at most k more bytes -- never
+   the whole document -- and fails (ENOSPC, EDQUOT, EFBIG, EIO); writeSyncFile then skips
+   the fsync and reports the error, PersistMetadata returns before the rename.  Schedules
+   range over these events too, so C06_atomic above already says that nsqd.dat stays absent
+   or complete and loadable under any number of write faults at any point; the step itself
+   never touches nsqd.dat: *)
+Theorem C06_write_fault_keeps_dat : forall s j k, dat (fs (fail_step s j k)) = dat (fs s).
+Proof. exact fail_keeps_dat. Qed.
+Print Assumptions C06_write_fault_keeps_dat.
+
 (* Whenever the daemon is idle (no request in progress, no Notify goroutine pending, no
    persist running), nsqd.dat is exactly the persisted form of the live state: every
-   completed creation is in it, every completed deletion is not.  All interleavings. *)
-Theorem C06_idle_full : forall evs,
+   completed creation is in it, every completed deletion is not.  All interleavings; no
+   write faults (after a failed persist the file is stale until the next successful one). *)
+Theorem C06_idle_full : forall evs, fault_free evs ->
   let s := run init evs in
   idle s ->
   exists c, dat (fs s) = Some c /\ complete c = true /\ f_synced c = true /\ f_doc c = snapshot (live_ s).
@@ -158,3 +169,14 @@ Example C06_witness_K8 : k8_check = true.
 Proof. exact k8_check_true. Qed.
 Example C06_witness_sequential : Sequential f6_schedule.
 Proof. vm_compute. repeat split; auto. Qed.
+
+(* a write fault while the creation of t is being persisted: nsqd.dat keeps the previous
+   complete document, a cut-off temp file stays behind, the daemon restarts after a kill *)
+Example C06_witness_write_fault :
+  let s1 := run init ([ERestart] ++ P8 ++ [EStart 1%N (OCreateTopic tname)] ++ steps 1%N 4
+                      ++ [ETask; EPersist 0%N; EPersist 7%N; EFault 0%N]) in
+  let s2 := run s1 ([EKill; ERestart] ++ P8) in
+  option_map f_doc (dat (fs s1)) = Some [] /\ lock s1 = None /\
+  map (fun x => complete (snd x)) (tmps (fs s1)) = [false] /\
+  up s2 = true /\ broken s2 = false /\ idle s2.
+Proof. vm_compute. repeat split; reflexivity. Qed.
